@@ -68,12 +68,14 @@ def inject_faults(rng, ops, kinds, pool):
     for _ in range(n):
         k = rng.choice(kinds)
         cause = rng.choice(["dup", "comment", "comment_replace", "label_first", "label_last", "format", "wrong_object",
-                            "absent_remove", "absent_replace", "bad_set", "format_int", "bad_date"])
+                            "absent_remove", "absent_replace", "bad_set", "format_int", "bad_date", "comment_none"])
         spec = rng.choice(pool[k])
         if cause == "dup":
             op = [("add", spec, None), ("add", rng.choice(pool[k]), "again")]
         elif cause == "comment":
             op = [("add", spec, rng.choice(BAD_COMMENTS))]
+        elif cause == "comment_none":
+            op = [("add", spec, container.EXPLICIT_NONE)]
         elif cause == "comment_replace":
             op = [("replace", spec, rng.choice(BAD_COMMENTS))]
         elif cause in ("label_first", "label_last"):
@@ -554,7 +556,7 @@ def ghost_apply(ghost, op, rc, now):
     m = spec.as_model()
     ty, fmt, payload = m[0], m[1], (bytes(m[3][0]) if m[3] else None)     # None: the block has no encoding (an invalid request got through)
     if op[0] == "add":
-        comment = op[2] if op[2] is not None else DEFAULT_COMMENT
+        comment = "" if op[2] == container.EXPLICIT_NONE else op[2] if op[2] is not None else DEFAULT_COMMENT
     elif op[0] == "replace":
         comment = op[2] if op[2] is not None else ghost[ty][1]
     else:
@@ -612,6 +614,8 @@ def expected_rc(c, i):
         return None         # any exception (which one depends on what the code touches first), state unchanged
     if op[0] in ("add", "replace", "set") and getattr(op[1], "duck", False) and c.steps[i]["rc"] != 0:
         return None         # a stand-in object may be refused like a wrong object — but then with the state unchanged
+    if op[0] == "add" and op[2] == container.EXPLICIT_NONE and c.steps[i]["rc"] != 0:
+        return None         # add_block(b, comment=None): no text at all — refused with whatever the code trips over, state unchanged
     return c.msteps[i]["rc"]
 
 
@@ -873,12 +877,18 @@ def run(chk, pid):
         specs = held_object_specs(chk) + standin_specs(chk) + specs
     if pid in ("C04", "C10", "C11", "C06"):
         specs = format_twin_specs(chk) + specs
+    if pid in ("C03", "C09", "C04"):
+        specs = zero_frame_specs(chk) + specs
     chk.rule = ("operation histories: exhaustive over {add,replace,set} x 3 types x 2 sizes + remove x 3 types up to the stated "
                 "length on crafted files N in {1,2,3} (empty / one opaque block), random histories (2-25 calls, 1-6 contexts, "
                 "all nine block types, opaque pre-populated blocks, full tables, rejected calls of every cause injected) on "
                 "Tdf.new and crafted files N in {1,2,3,4,5,14}, the first/middle/last-removal strata, >64 KiB payloads, the "
                 "BTS capture; observed: " + RULES[pid] + "; non-trivial = at least one successful mutation and (>= 2 live "
                 "blocks at some point or a rejected call)")
+    if pid == "C04":
+        huge_block_frame(chk)
+        if chk.n_found():
+            return
     BATCH = 400
     seen_init = {}
     for k in range(0, len(specs), BATCH):
@@ -1179,6 +1189,102 @@ def held_object_specs(chk):
             init = crafted(chk.work, "held_%s_%d_a" % (kind, rep), 3, [], rng)
             out.append(("crafted N=3 empty", init, [[("replace", use[0], None), ("add", use[1], None), ("replace", use[2], None)]],
                         "one block object kept, edited in place and handed in again"))
+    return out
+
+
+def huge_block_frame(chk):
+    """C04 at the size of a long capture: a recording of more than 32 MiB (quick) / 64 MiB (thorough) added behind two small
+    blocks, then the first small block removed so that everything moves.  Judged on the file alone (the block is too large
+    to be worth sending through the extracted model; the theorems hold for every size): the other blocks keep entry and
+    bytes, the new block's bytes are its encoding, the file is as long as its parts."""
+    import numpy as np
+    from basictdf import Tdf
+    from basictdf.tdfBlock import BlockType
+    from basictdf.tdfEMG import EMG, EMGTrack
+    rng = common.rng_for(chk.seed, "hugeframe")
+    for mib in ((33,) if chk.tier == "quick" else (33, 65)):
+        p = os.path.join(chk.work, "huge%d.tdf" % mib)
+        if os.path.exists(p):
+            os.unlink(p)
+        n = (mib << 20) // 4
+        d3, ev = container.small_block("D3", rng, 1), container.small_block("EV", rng, 1)
+        big = EMG(1000, n)
+        big.addSignal(EMGTrack("long", (np.arange(n, dtype="<f4") % 1013) / 8))
+        want = hashlib.sha1(blocks.impl_write(big)).hexdigest()
+        size = int(big.nBytes)
+        chk.note_case(("huge block", mib), True)
+        chk.count("a block of more than 32 MiB added behind other blocks")
+        what = {"scenario": "Tdf.new; add(D3, 'markers'); add(EV); add(EMG of %d samples = %d MiB); remove(D3)" % (n, mib)}
+
+        def view():
+            raw = open(p, "rb").read()
+            t = codec.parse_tdf(raw)
+            out = {}
+            for e in t["entries"]:
+                if e["type"] != 0:
+                    out[e["type"]] = (e["format"], e["offset"], e["size"], e["cdate"], e["mdate"], e["comment"],
+                                      hashlib.sha1(raw[e["offset"]: e["offset"] + e["size"]]).hexdigest())
+            live = sum(e["size"] for e in t["entries"] if e["type"] != 0)
+            return out, len(raw), 64 + 288 * t["n"] + live
+        try:
+            with scripted_clock():
+                Clock.now = T0
+                Tdf.new(p)
+                with Tdf(p).allow_write() as f:
+                    f.add_block(d3.build(), "markers")
+                    f.add_block(ev.build())
+                v0, _, _ = view()
+                with Tdf(p).allow_write() as f:
+                    f.add_block(big, "long recording")
+                v1, len1, sum1 = view()
+                with Tdf(p).allow_write() as f:
+                    f.remove_block(BlockType.data3D)
+                v2, len2, sum2 = view()
+        except Exception as e:
+            chk.violation("C04: %s fails: %s" % (what["scenario"], common.exc_info(e)), what, True)
+            return
+        found = None
+        for ty in v0:
+            if v1.get(ty) != v0[ty]:
+                found = "adding the long recording changed block type %d: %r -> %r" % (ty, v0[ty][:6], (v1.get(ty) or ())[:6]) + (
+                    " (bytes differ)" if v1.get(ty) and v1[ty][6] != v0[ty][6] else "")
+        em = v1.get(11)
+        if not found and (em is None or em[2] != size or em[6] != want or em[5] != b"long recording"):
+            found = "the long recording is not stored as given: entry %r, encoding is %d bytes" % (em and em[:6], size)
+        if not found and len1 != sum1:
+            found = "after the add the file is %d bytes, header + table + blocks = %d" % (len1, sum1)
+        if not found:
+            gone = v0[5][2]
+            for ty in (16, 11):
+                a, b = v1[ty], v2.get(ty)
+                if b is None or (a[0], a[1] - gone, a[2], a[3], a[4], a[5], a[6]) != b:
+                    found = "removing the first block changed block type %d: %r -> %r%s" % (ty, a[:6], b and b[:6], " (bytes differ)" if b and a[6] != b[6] else "")
+            if not found and (5 in v2 or len2 != sum2):
+                found = "after the removal the file is %d bytes, header + table + blocks = %d" % (len2, sum2)
+        os.unlink(p)
+        if found:
+            chk.violation("C04: %s [%s]" % (found, what["scenario"]), what, True)
+            return
+
+
+def zero_frame_specs(chk):
+    """blocks of a recording that was set up but never ran: zero frames, one or two tracks.  They are outside the codec
+    model's valid values (C01 wants a frame), but the container only ever sees nBytes and the bytes of _write: stored as
+    the last block of a file and then shifted about, they must leave the file as sound and as compact as any other block"""
+    rng = common.rng_for(chk.seed, "zeroframes")
+    z3, z9 = [0, 0, 0], [0] * 9
+    zero = {"FT": Spec("FT", 1, [2, 100, 0, 0, z3, z9, z3, [], [[[0x66], []], [[0x67], []]]]),
+            "D3": Spec("D3", 2, [0, 100, 0, 1, z3, z9, z3, 0, [], [[[0x6D], []]]]),
+            "EM": Spec("EM", 1, [1, 1000, 0, 0, [3], [[[0x73], []]]]),
+            "PD": Spec("PD", 1, [1, 100, 0, 0, [2], [[]]])}
+    out = []
+    for j, kind in enumerate(zero):
+        other = container.small_block("EV" if kind != "EV" else "OS", rng, 1)
+        more = container.small_block("OS", rng, 1)
+        ops = [("add", other, None), ("set", zero[kind]) if kind in SETTER else ("add", zero[kind], None), ("remove", other.ty()), ("add", more, None),
+               ("replace", zero[kind], "again"), ("remove", zero[kind].ty())]
+        init = crafted(chk.work, "zeroframes%d" % j, 4, [], rng)
+        out.append(("crafted N=4 empty", init, [ops[:2], ops[2:4], ops[4:]], "a block with zero frames and one or two tracks"))
     return out
 
 
